@@ -2297,6 +2297,7 @@ class QuicConnection:
             )
 
         # process data
+        was_finished = stream.receiver.is_finished
         try:
             event = stream.receiver.handle_frame(frame)
         except FinalSizeError as exc:
@@ -2305,7 +2306,9 @@ class QuicConnection:
                 frame_type=frame_type,
                 reason_phrase=str(exc),
             )
-        if event is not None:
+        # A retransmission received once the receiving part of the stream
+        # is finished must not signal the end of the stream a second time.
+        if event is not None and not was_finished:
             self._events.append(event)
         self._local_max_data.used += newly_received
 
